@@ -745,7 +745,7 @@ def explore(rep, br, tier, seed):
         catalogue_selftest(rep)
         block_part(rep, rng, 400 if tier == "quick" else 4000)
         wargs_part(rep, rng, 150 if tier == "quick" else 1500)
-        cli_part(rep, rng, tier, 90 if tier == "quick" else 400)
+        cli_part(rep, rng, tier, 90 if tier == "quick" else 700)
     finally:
         cleanup()
 
